@@ -295,7 +295,8 @@ type CorpusCase struct {
 }
 
 func checkCorpus(c CorpusCase) error {
-	b, err := os.ReadFile(c.File)
+	path := vk.RepoPath(c.File)
+	b, err := os.ReadFile(path)
 	if err != nil {
 		return vk.Harnessf("%v", err)
 	}
@@ -351,7 +352,7 @@ func checkCorpus(c CorpusCase) error {
 	if len(recs) < 10 || len(table) < 5 {
 		return vk.Harnessf("reference reader found only %d records and %d suppliers in %s", len(recs), len(table), c.File)
 	}
-	got, err := rebase.Read(c.File)
+	got, err := rebase.Read(path)
 	if err != nil {
 		return vk.Errf("Read(%s): %v", c.File, err)
 	}
@@ -362,6 +363,6 @@ var subCorpus = vk.Register(&vk.Sub[CorpusCase]{Name: "corpus", Check: checkCorp
 
 func TestSub_corpus(t *testing.T) {
 	vk.RunEnum(t, subCorpus, "the distributed sample io/rebase/data/rebase_test.txt (92 records)", true, func(yield func(CorpusCase) bool) {
-		yield(CorpusCase{File: "/repo/io/rebase/data/rebase_test.txt"})
+		yield(CorpusCase{File: "io/rebase/data/rebase_test.txt"})
 	})
 }
